@@ -45,20 +45,78 @@ def sha(*parts):
     return h.hexdigest()
 
 
-def run(cmd, timeout=600, input=None, env=None, cwd=None, merge_err=True):
+MAX_OUTPUT = 192 << 20
+
+
+def run(cmd, timeout=600, input=None, env=None, cwd=None, merge_err=True, max_output=MAX_OUTPUT):
     """Run a command; returns (returncode, stdout, stderr, timed_out).
-    returncode is negative for signals like subprocess does."""
+    returncode is negative for signals like subprocess does.  Output beyond max_output bytes is dropped and the
+    process is killed (returncode -9, the marker line "[output limit exceeded]" is appended): a driver that runs away
+    printing must not take the supervisor down with it."""
+    import threading
     e = dict(os.environ)
     if env:
         e.update(env)
-    try:
-        p = subprocess.run(
-            cmd, input=input, stdout=subprocess.PIPE,
-            stderr=subprocess.STDOUT if merge_err else subprocess.PIPE,
-            timeout=timeout, env=e, cwd=cwd)
-        return p.returncode, p.stdout, (p.stderr if not merge_err else b""), False
-    except subprocess.TimeoutExpired as ex:
-        return None, ex.stdout or b"", b"", True
+    p = subprocess.Popen(cmd, stdin=subprocess.PIPE if input is not None else subprocess.DEVNULL, stdout=subprocess.PIPE,
+                         stderr=subprocess.STDOUT if merge_err else subprocess.PIPE, env=e, cwd=cwd)
+    state = {"timeout": False, "overflow": False}
+    out_chunks, err_chunks = [], []
+
+    def feed():
+        try:
+            p.stdin.write(input)
+        except (BrokenPipeError, OSError):
+            pass
+        finally:
+            try:
+                p.stdin.close()
+            except OSError:
+                pass
+
+    def drain(stream, chunks, limited):
+        total = 0
+        while True:
+            b = stream.read(1 << 20)
+            if not b:
+                break
+            total += len(b)
+            if limited and total > max_output:
+                if not state["overflow"]:
+                    state["overflow"] = True
+                    try:
+                        p.kill()
+                    except OSError:
+                        pass
+                continue
+            chunks.append(b)
+
+    def on_timeout():
+        state["timeout"] = True
+        try:
+            p.kill()
+        except OSError:
+            pass
+
+    threads = []
+    if input is not None:
+        threads.append(threading.Thread(target=feed, daemon=True))
+    threads.append(threading.Thread(target=drain, args=(p.stdout, out_chunks, True), daemon=True))
+    if not merge_err:
+        threads.append(threading.Thread(target=drain, args=(p.stderr, err_chunks, True), daemon=True))
+    timer = threading.Timer(timeout, on_timeout)
+    timer.start()
+    for th in threads:
+        th.start()
+    for th in threads:
+        th.join()
+    rc = p.wait()
+    timer.cancel()
+    out = b"".join(out_chunks)
+    if state["overflow"]:
+        out += b"\n[output limit exceeded]\n"
+    if state["timeout"]:
+        return None, out, b"", True
+    return rc, out, b"".join(err_chunks), False
 
 
 def pmap(fn, items, workers=None):
